@@ -24,7 +24,7 @@ members to typed unknowns true of the replaced part.
 import CtyModel.Props.C11
 import CtyModel.Lemmas.CoversWeaken
 import CtyModel.Lemmas.C12Funcs
-import CtyModel.Lemmas.d12bStrlen
+import CtyModel.Lemmas.d12bZipmap
 namespace CtyModel
 namespace C12
 open Fn Std
@@ -800,6 +800,36 @@ theorem sound_strlen (clusters : String → List String) (s : String) (w r : Val
     (one_arg_cover hc) ⟨hty.elim Or.inl (fun h => Or.inr (by rw [h.1]; rfl)), trivial⟩ hrwf hrefl
     (fun _ _ => D12b.strlen_implSound clusters s w hty hmw hc hlaw) hr
 
+/-- **`zipmap(keys, values)`**: the keys are guarded (a keys list that is not wholly known gives the unknown of the
+predicted type — a map type for a list of values, the placeholder for a tuple, whose object type depends on the
+keys); the values, a list or tuple known at the top, may hold unknown members, which are stored under their keys
+as they are (`values.Index(i)`: C01 `sound_index`), a later duplicate key overriding an earlier one alike. -/
+theorem sound_zipmap (E : Stdlib.Env) (ok wk ov wv r : Value)
+    (hkk : ok.whollyKnown = true) (hkv : ov.whollyKnown = true) (hfo : ov.wfc = true) (hfw : wv.wfc = true)
+    (hmok : ok.containsMarked = false) (hmwk : wk.containsMarked = false)
+    (hmov : ov.containsMarked = false) (hmwv : wv.containsMarked = false) (hsk : D12b.noSet wk.v = true)
+    (htk : wk.ty = ok.ty ∨ wk.ty.isDyn = true) (htv : wv.ty = ov.ty ∨ wv.ty.isDyn = true)
+    (hck : CoversX wk ok = true) (hcv : CoversX wv ov = true)
+    (hTw : ∀ t, Stdlib.zipmapType E [wk, wv] = .ok t → Ty.wf t = true)
+    (hrwf : Ty.wf r.ty = true) (hrefl : Covers r r = true)
+    (hr : (callUnrefined Stdlib.zipmapSpec (Stdlib.zipmapType E) (Stdlib.zipmapImpl E) [ok, ov]).1 = .ok r) :
+    ∃ r', (callUnrefined Stdlib.zipmapSpec (Stdlib.zipmapType E) (Stdlib.zipmapImpl E) [wk, wv]).1 = .ok r' ∧
+      Covers r' r = true := by
+  refine impl_soundness_lifts_to_call _ _ _ [ok, ov] [wk, wv] r ?_ hTw
+    (by intro a ha; simp at ha; rcases ha with rfl | rfl <;> exact C12L.whollyKnown_isKnown (by assumption))
+    (by intro a ha; simp at ha; rcases ha with rfl | rfl <;> assumption)
+    (by intro a ha; simp at ha; rcases ha with rfl | rfl <;> assumption)
+    (by simp [coversAll, hck, hcv]) ⟨htk, htv, trivial⟩ hrwf hrefl ?_ hr
+  · intro hp
+    obtain ⟨h1, h2⟩ := D12b.two_args_pass (spec := Stdlib.zipmapSpec) rfl rfl rfl hp htk htv
+    by_cases hkw : wk.whollyKnown = true
+    · exact D12b.zipmapType_mono E h2 (Or.inl (D12b.coversX_wk_eq h1 hmwk hmok hkw hsk hck))
+    · exact D12b.zipmapType_mono E h2 (Or.inr (by simpa using hkw))
+  · intro hp hri
+    obtain ⟨h1, h2⟩ := D12b.two_args_pass (spec := Stdlib.zipmapSpec) rfl rfl rfl hp htk htv
+    obtain ⟨_, hkwv⟩ := D12b.two_args_known (spec := Stdlib.zipmapSpec) rfl rfl rfl hri
+    exact D12b.zipmap_implSound E ok wk ov wv h1 h2 hmok hmwk hmov hmwv hsk hck hkv hfo hfw hkwv hcv
+
 /-! ### the hypotheses are satisfiable -/
 
 example : TypeMonoW (C11.staticType (.list .string)) := static_typeMonoW _
@@ -994,6 +1024,29 @@ example : ∃ r', (callUnrefined Stdlib.strlenSpec Stdlib.strlenType (Stdlib.str
 /-- what the model answers for a refined prefix: the lower bound is the number of clusters of the prefix -/
 example : (callUnrefined Stdlib.strlenSpec Stdlib.strlenType (Stdlib.strlenImplU fun _ => ["a", "b"]) [⟨.string, .unk (.str .f "ab")⟩]).1 =
     .ok ⟨.number, .unk (.num .u (some ⟨Num.ofInt 2 64, true⟩) none)⟩ := by rfl
+
+
+/-- `zipmap(["k","l"], [1, 2])` with the first value unknown, and with a key unknown -/
+example : ∃ r', (callUnrefined Stdlib.zipmapSpec (Stdlib.zipmapType {}) (Stdlib.zipmapImpl {})
+      [⟨.list .string, .seq [.s "k", .s "l"]⟩, ⟨.list .number, .seq [.unk .unref, .n (.fin false 1 1 64)]⟩]).1 = .ok r' ∧
+    Covers r' exM = true :=
+  sound_zipmap {} ⟨.list .string, .seq [.s "k", .s "l"]⟩ ⟨.list .string, .seq [.s "k", .s "l"]⟩
+    ⟨.list .number, .seq [.n (.fin false 1 0 64), .n (.fin false 1 1 64)]⟩ ⟨.list .number, .seq [.unk .unref, .n (.fin false 1 1 64)]⟩ exM
+    (by decide) (by decide) (by decide) (by decide) (by decide) (by decide) (by decide) (by decide) (by decide)
+    (Or.inl rfl) (Or.inl rfl) (by decide) (by decide)
+    (by intro t h; have e : Stdlib.zipmapType {} [⟨.list .string, .seq [.s "k", .s "l"]⟩, ⟨.list .number, .seq [.unk .unref, .n (.fin false 1 1 64)]⟩] = .ok (.map .number) := rfl
+        rw [e] at h; cases h; rfl)
+    (by decide) (by decide) (by rfl)
+example : ∃ r', (callUnrefined Stdlib.zipmapSpec (Stdlib.zipmapType {}) (Stdlib.zipmapImpl {})
+      [⟨.list .string, .seq [.unk .unref, .s "l"]⟩, ⟨.list .number, .seq [.n (.fin false 1 0 64), .n (.fin false 1 1 64)]⟩]).1 = .ok r' ∧
+    Covers r' exM = true :=
+  sound_zipmap {} ⟨.list .string, .seq [.s "k", .s "l"]⟩ ⟨.list .string, .seq [.unk .unref, .s "l"]⟩
+    ⟨.list .number, .seq [.n (.fin false 1 0 64), .n (.fin false 1 1 64)]⟩ ⟨.list .number, .seq [.n (.fin false 1 0 64), .n (.fin false 1 1 64)]⟩ exM
+    (by decide) (by decide) (by decide) (by decide) (by decide) (by decide) (by decide) (by decide) (by decide)
+    (Or.inl rfl) (Or.inl rfl) (by decide) (by decide)
+    (by intro t h; have e : Stdlib.zipmapType {} [⟨.list .string, .seq [.unk .unref, .s "l"]⟩, ⟨.list .number, .seq [.n (.fin false 1 0 64), .n (.fin false 1 1 64)]⟩] = .ok (.map .number) := rfl
+        rw [e] at h; cases h; rfl)
+    (by decide) (by decide) (by rfl)
 
 end C12
 end CtyModel
